@@ -182,6 +182,8 @@ def enc(t, v):
             e = enc(mt, v[name])
             buf[off:off + len(e)] = e
         for name, (off, bit) in t["bits"].items():
+            if name in private:
+                continue
             if v[name]:
                 buf[off] |= 1 << bit
             else:
